@@ -678,6 +678,14 @@ func init() {
 		}
 		return RpServer(a[0]).RpPlay(items, 0).Canon(a[0])
 	})
+	// conviter: the same request evaluated by the oracle driver's loop (model side only differs)
+	RegisterOp("conviter", func(a []string) string {
+		items, err := RpParseItems(a[1:])
+		if err != nil {
+			return "bad-" + err.Error()
+		}
+		return RpServer(a[0]).RpPlay(items, 0).Canon(a[0])
+	})
 	// rtable <id>: HasReply / ReplyProtocol of the model type registered for the id
 	RegisterOp("rtable", func(a []string) string {
 		h, ok := RpModelTypes()[uint16(atoi(a[0]))]
